@@ -2,8 +2,10 @@
 // Everything in this block is an assumption about code outside xs (scru128, std); it is listed
 // in the assumption ledger. The scru128 axioms are additionally checked on the real crate by
 // the Kani unit K1.
-#[derive(Clone, Copy, PartialEq, Eq)]
+#[derive(Clone, Copy)]
 pub struct Scru128Id(u128);
+impl PartialEq for Scru128Id { fn eq(&self, o: &Self) -> bool { self.0 == o.0 } fn ne(&self, o: &Self) -> bool { self.0 != o.0 } }
+impl Eq for Scru128Id {}
 impl Scru128Id {
     pub fn as_bytes(&self) -> &[u8; 16] { unimplemented!() }
     pub fn to_bytes(self) -> [u8; 16] { unimplemented!() }
@@ -55,7 +57,16 @@ pub open spec fn id_bytes(id: Scru128Id) -> Seq<u8> { be16(id_u128(id)) }
 pub broadcast proof fn axiom_id_ext(a: Scru128Id, b: Scru128Id)
     ensures #[trigger] id_u128(a) == #[trigger] id_u128(b) ==> a == b { admit(); }
 
-// scru128 axioms (checked on the real crate by K1)
+// Scru128Id equality is equality of the 128-bit value
+impl vstd::std_specs::cmp::PartialEqSpecImpl for Scru128Id {
+    open spec fn obeys_eq_spec() -> bool { true }
+    open spec fn eq_spec(&self, other: &Scru128Id) -> bool { id_u128(*self) == id_u128(*other) }
+}
+pub assume_specification [<Scru128Id as PartialEq>::eq] (a: &Scru128Id, b: &Scru128Id) -> (r: bool)
+    ensures r == (id_u128(*a) == id_u128(*b));
+pub assume_specification [<Scru128Id as PartialEq>::ne] (a: &Scru128Id, b: &Scru128Id) -> (r: bool)
+    ensures r == (id_u128(*a) != id_u128(*b));
+// scru128 axioms
 pub assume_specification [Scru128Id::as_bytes] (id: &Scru128Id) -> (r: &[u8; 16])
     ensures r@ == id_bytes(*id);
 pub assume_specification [Scru128Id::to_bytes] (id: Scru128Id) -> (r: [u8; 16])
